@@ -276,6 +276,12 @@ def freeze (x : XState) (sid : Nat) (code : Option Nat) : XState :=
     frozen := x.frozen ++ (x.st.streams.filter (fun e => e.1 == sid)).map
       (fun e => (e.1, { e.2 with cur := none, finAfter := false }, code)) }
 
+/-- `stop_stream` on a send side that had ended already (the peer's STOP_SENDING): h3 still resets
+    it; the first code stays (`reset` is idempotent in the transport) -/
+def resetCode (x : XState) (sid code : Nat) : XState :=
+  { x with frozen := x.frozen.map (fun e =>
+      if e.1 == sid && e.2.2.isNone then (e.1, e.2.1, some code) else e) }
+
 /-- the handles' flags once there is more than one handle -/
 def handleFlags (x : XState) : List Bool := if x.handles.isEmpty then [x.st.connGrease] else x.handles
 
@@ -294,7 +300,7 @@ def xstep (x : XState) : XStep → XState
   | .cloneSender h =>
     let fl := handleFlags x
     { x with handles := fl ++ [fl.getD h false] }
-  | .stopStream sid code => if sid % 4 = 0 then freeze x sid (some code) else x
+  | .stopStream sid code => if sid % 4 = 0 then resetCode (freeze x sid (some code)) sid code else x
   | .peerStop sid _ => freeze x sid none
   | .abandon sid => freeze x sid none
   | .stopSending _ _ => x
